@@ -20,7 +20,7 @@ func VerifProofRoundTrip() {
 			continue
 		}
 		h := rt.Bytes("h")
-		rt.Assume(string(h) != "")
+		rt.Assume(string(h) != "" && rt.LenLE(string(h), 64)) // hashes of 1..64 bytes (the property's range)
 		p = append(p, h)
 	}
 	rt.Name("proof.len", uint64(k))
